@@ -667,6 +667,8 @@ func (pc plCase) build() Playlist {
 		return m
 	case "long-lines":
 		return longLineCase(pc.Mask, pc.VS)
+	case "durations":
+		return durationCase(pc.Mask, pc.VS)
 	case "server-control":
 		m := mediaF1(0, pc.VS)
 		sc := &MediaServerControl{}
@@ -683,6 +685,47 @@ func (pc plCase) build() Playlist {
 		return m
 	}
 	return nil
+}
+
+// durations on and off the 10 us grid of the text form, around every rounding boundary (a carry into the next second,
+// minute-sized values, values that round to zero); decoded values are compared with a tolerance of one grid step
+var gridDurations = []time.Duration{
+	0, 4 * time.Microsecond, 5 * time.Microsecond, 14999 * time.Nanosecond, 10 * time.Microsecond,
+	time.Second - 2*time.Microsecond, time.Second - 5*time.Microsecond, time.Second - 5001*time.Nanosecond, time.Second + 4999*time.Nanosecond,
+	2*time.Second - 3*time.Microsecond, 9*time.Second + 999996*time.Microsecond, 59*time.Second + 999995*time.Microsecond,
+	3599*time.Second + 999996*time.Microsecond, 33366667 * time.Nanosecond, 6006 * time.Millisecond, 100 * time.Hour,
+}
+
+const durationFields = 7
+
+func durationCase(field int, vi int) Playlist {
+	d := gridDurations[vi%len(gridDurations)]
+	m := &Media{Version: 9, TargetDuration: 4000, MediaSequence: 1, Map: &MediaMap{URI: "i.mp4"},
+		ServerControl: &MediaServerControl{CanBlockReload: true, PartHoldBack: durp(3 * time.Second)}, PartInf: &MediaPartInf{PartTarget: time.Second},
+		Segments: []*MediaSegment{{Duration: time.Second, URI: "s1.mp4", Parts: []*MediaPart{{Duration: time.Second, URI: "p1.mp4"}}}}}
+	if field <= 2 && d < 5*time.Microsecond {
+		d += time.Second // a segment / part / PART-TARGET needs a duration: the decoder takes 0.00000 for a missing one (documented check)
+	}
+	if field == 6 && d < 5*time.Microsecond {
+		d += time.Second // (a negative offset that rounds to zero is written as -0.00000: not a different value)
+	}
+	switch field {
+	case 0:
+		m.Segments[0].Duration = d
+	case 1:
+		m.Segments[0].Parts[0].Duration = d
+	case 2:
+		m.PartInf.PartTarget = d
+	case 3:
+		m.ServerControl.PartHoldBack = durp(d)
+	case 4:
+		m.ServerControl.CanSkipUntil = durp(d)
+	case 5:
+		m.Start = &MediaStart{TimeOffset: d}
+	case 6:
+		m.Start = &MediaStart{TimeOffset: -d}
+	}
+	return m
 }
 
 // line lengths around the buffer sizes of the usual line readers (bufio.Reader 4 KiB, bufio.Scanner 64 KiB) and one
@@ -743,6 +786,11 @@ func longLineCase(pos int, li int) Playlist {
 
 func c14Cases(tier string) map[string][]plCase {
 	out := map[string][]plCase{}
+	for f := 0; f < durationFields; f++ {
+		for vi := range gridDurations {
+			out["durations"] = append(out["durations"], plCase{Family: "durations", Mask: f, VS: vi})
+		}
+	}
 	for pos := 0; pos < longLinePositions; pos++ {
 		for li := range longLens {
 			out["long-lines"] = append(out["long-lines"], plCase{Family: "long-lines", Mask: pos, VS: li})
